@@ -90,6 +90,23 @@ impl SnmpOid<'_> {
     pub fn starts_with(&self, oid: &SnmpOid) -> bool {
         oid.0.starts_with(&self.0)
     }
+    // Check oid goes strictly after other oid in the lexicographic
+    // order of subidentifiers (the order of the MIB walk)
+    pub fn is_after(&self, oid: &SnmpOid) -> bool {
+        self.subidentifiers() > oid.subidentifiers()
+    }
+    fn subidentifiers(&self) -> Vec<u64> {
+        let mut r = Vec::with_capacity(self.0.len());
+        let mut b = 0u64;
+        for c in self.0.iter() {
+            b = (b << 7) | ((*c as u64) & 0x7f);
+            if c & 0x80 == 0 {
+                r.push(b);
+                b = 0;
+            }
+        }
+        r
+    }
 }
 
 struct OidSubelementIterator<'a>(core::str::Split<'a, &'a str>);
